@@ -562,7 +562,12 @@ def call_method(it, recv, meth, args, kwargs, fr, node):
     if isinstance(recv, VList):
         return m_list(it, recv, meth, args, kwargs, fr)
     if isinstance(recv, VSeq):
-        return m_seq(it, recv, meth, args, kwargs, fr)
+        r = m_seq(it, recv, meth, args, kwargs, fr)
+        org = getattr(recv, "origin", None)
+        if org is not None:
+            # the sequence was looked up in a defaultdict map: the map sees the mutation
+            org[0].val = z3.Store(org[0].val, org[1], recv.z)
+        return r
     if isinstance(recv, VSet):
         return m_set(it, recv, meth, args, kwargs)
     if isinstance(recv, VDict):
